@@ -5,7 +5,7 @@ def prep(ov):
     vtag = open(os.path.join(os.path.dirname(HERE), "common", "vtag.rs")).read()   # vstatic!: see contracts/common/vtag.rs
     ov.attach_lib_module("tracing-appender", "__verif_c15_chan", vtag + "\n" + open(os.path.join(HERE, "channel_stub.rs")).read())
 PLAN = dict(
-    id="C15", level="other", explanation='Sequential contracts with the crossbeam channel replaced by a contract stub (bounded FIFO; try_send fails iff full/disconnected; send blocks unless disconnected; recv/try_recv pop in order - ASSUMED, listed): Worker::handle_recv / handle_try_recv write a Line whole exactly once and map every other message to its state; Worker::work drains a scripted receive sequence (<= 3 entries) in order, writes each line once, flushes exactly once on a normal exit, returns Err on a write error having consumed only that line; NonBlocking::write / write_all: lossy mode always reports the whole buffer and written + dropped = offered (saturating counter), blocking mode is Ok iff queued and never counts; ErrorCounter::incr_saturating for every counter value. WorkerGuard::drop is not under contract (Kani compiler crash).',
+    id="C15", api_files=['tracing-appender/src/non_blocking.rs', 'tracing-appender/src/worker.rs'], level="other", explanation='Sequential contracts with the crossbeam channel replaced by a contract stub (bounded FIFO; try_send fails iff full/disconnected; send blocks unless disconnected; recv/try_recv pop in order - ASSUMED, listed): Worker::handle_recv / handle_try_recv write a Line whole exactly once and map every other message to its state; Worker::work drains a scripted receive sequence (<= 3 entries) in order, writes each line once, flushes exactly once on a normal exit, returns Err on a write error having consumed only that line; NonBlocking::write / write_all: lossy mode always reports the whole buffer and written + dropped = offered (saturating counter), blocking mode is Ok iff queued and never counts; ErrorCounter::incr_saturating for every counter value. WorkerGuard::drop is not under contract (Kani compiler crash).',
     functions_under_contract=['tracing-appender/src/worker.rs: Worker::{handle_recv,handle_try_recv,work}', 'tracing-appender/src/non_blocking.rs: NonBlocking::{write,write_all}, ErrorCounter::{incr_saturating,dropped_lines}'],
     trusted_base=["Kani 0.68 / CBMC 6.11 / CaDiCaL; Kani's std build (nightly-2026-08-21), not the repo toolchain's", 'core::fmt::Formatter::pad stubbed to Ok(()) with -Z stubbing (panic-message formatting on infeasible error branches; no harness that uses it reads formatted text)', 'cfg(kani) thread_local! shim and once_cell::sync::Lazy contract stub (see overlay_additions)', 'crossbeam_channel::{Sender::try_send, send, send_timeout, Receiver::recv, try_recv} replaced by scripted contract stubs (-Z stubbing)'],
     assumptions=['the channel contract above (FIFO, exactly-once hand-over, bounded capacity)', 'thread spawn / join and all producer-worker schedules'],
